@@ -45,6 +45,11 @@ checks["C15"]=dict(
    note="Trusted: the documented write-set table in c15.go (transcribed from docs/reference/schema_transformations.md and doc comments), go/types, the effects engine's syntactic access paths. Does not decide that the written value is the documented one, nor ordering effects beyond the ordered-map rules of C19.",
    technique="interprocedural write-set containment against a documented table + control-dependence (guardedness) lint + selector-shape checks",
    design="§3.C15")
+checks["C16"]=dict(
+   text="Structural necessary conditions of builder derivation decided on internal/ast/builder.go: exactly one disposition (option / constructor assignment / documented constant-reference skip) on every path of the field loop; a builder exactly under the struct-or-reference test, for every object of every schema; the derived option's argument, assignment path, default and constraints are taken from the field, constraints mapped one-to-one; reference resolution identifies objects by package and name.",
+   note="Trusted: go/types; the recognised shape of structObjectToBuilder (early-continue guards followed by a fall-through). Does not evaluate alias chains on concrete schemas.",
+   technique="path enumeration over the structured field loop + shape lint of the derivation functions (type-resolved AST)",
+   design="§3.C16")
 pending = {}
 props = [json.loads(l) for l in open(os.path.join(here, "properties.jsonl"))]
 m = {
